@@ -197,6 +197,8 @@ def check_grid(repo: Repo, rep: Report) -> None:
 
 
 def run(repo: Repo, rep: Report) -> None:
+    from .encodings import engine_selfcheck
+    engine_selfcheck(rep)
     check_encoding(repo, rep)
     check_grid(repo, rep)
     from .encodings import standard_history
